@@ -1012,7 +1012,8 @@ def _active_edges_single_path(
             solver.ensure(is_passed[i].then((degree == 1) | (degree == 2)))
             solver.ensure((~is_passed[i]).then(degree == 0))
             is_endpoint.append(degree == 1)
-        solver.ensure(count_true(is_endpoint) == 2)
+        # either a path (exactly two endpoints) or, as documented, no active edge at all
+        solver.ensure((count_true(is_endpoint) == 2) | (count_true(is_active_edge) == 0))
         line_graph = graph.line_graph()
         _active_vertices_connected(
             solver, is_active_edge, line_graph, acyclic=False, use_graph_primitive=True
